@@ -149,6 +149,44 @@ pub fn run(ctx: &Ctx, rec: &mut Rec) {
             }
         }
     });
+    // scalar multiplication by *integers* (not reduced): the scalar zoo of the group order q incl. q, q+-1,
+    // q+-2, 2q.., prefixes c*q+delta (exceptional cases of dedicated addition formulas in hand-written
+    // ladders), recoding runs, long integers; projective and affine entry points, small-order points
+    rec.declare_form("mul_bigint by integer zoo");
+    {
+        let izoo = crate::zoo::scalar_int_zoo(&f.p);
+        par(rec, |w, n, rec| {
+            for (i, (k, class)) in izoo.iter().enumerate() {
+                if i % n != w || (*class == "recoding-run" && i % 5 != 0) {
+                    continue;
+                }
+                rec.form("mul_bigint by integer zoo");
+                rec.eval(&("int-scalar", k.to_bytes_le()), k == &b(0));
+                let limbs = k.to_u64_digits();
+                let res = guarded(|| {
+                    let mut out: Vec<(Vec<u8>, Vec<u8>)> = Vec::new();
+                    let (g1o, g1r) = (<Ours as Pairing>::G1::generator(), <Refe as Pairing>::G1::generator());
+                    let (g2o, g2r) = (<Ours as Pairing>::G2::generator(), <Refe as Pairing>::G2::generator());
+                    out.push((ser(&g1o.mul_bigint(&limbs).into_affine(), Compress::No), ser(&g1r.mul_bigint(&limbs).into_affine(), Compress::No)));
+                    out.push((ser(&g2o.mul_bigint(&limbs).into_affine(), Compress::No), ser(&g2r.mul_bigint(&limbs).into_affine(), Compress::No)));
+                    out.push((ser(&g1o.into_affine().mul_bigint(&limbs).into_affine(), Compress::No), ser(&g1r.into_affine().mul_bigint(&limbs).into_affine(), Compress::No)));
+                    out.push((ser(&g2o.into_affine().mul_bigint(&limbs).into_affine(), Compress::No), ser(&g2r.into_affine().mul_bigint(&limbs).into_affine(), Compress::No)));
+                    // a point that is not the generator (7G), projective with Z != 1
+                    let (p1o, p1r) = (g1o.double() + g1o.double().double() + g1o, g1r.double() + g1r.double().double() + g1r);
+                    out.push((ser(&p1o.mul_bigint(&limbs).into_affine(), Compress::No), ser(&p1r.mul_bigint(&limbs).into_affine(), Compress::No)));
+                    out
+                });
+                match res {
+                    Err(pn) => rec.violation(format!("{P}:mul_bigint by integer zoo:panic"), pn, json!({"k": hexs(k), "class": class})),
+                    Ok(out) => {
+                        for (a, bb) in out {
+                            cmp_bytes(rec, "mul_bigint by integer zoo", &a, &bb, json!({"k": hexs(k), "class": class}));
+                        }
+                    }
+                }
+            }
+        });
+    }
     // hostile point encodings: both engines must give the same verdict (and the same point)
     rec.declare_form("hostile encodings");
     rec.declare_form("cofactor clearing");
@@ -399,6 +437,57 @@ pub fn run(ctx: &Ctx, rec: &mut Rec) {
             }
         });
     }
+    // multi-pairings over lists of 1..5 pairs with identities planted on the G1 side, the G2 side or both,
+    // at every position; the whole list against the reference engine byte for byte (miller loop and
+    // pairing), and against the product of the individual pairings
+    rec.declare_form("multi_pairing lists with identities");
+    par(rec, |w, n, rec| {
+        let mut rng = rng_for(ctx.seed, P, w, 12);
+        let reps = ctx.scale(160, 2000);
+        for rep in 0..reps {
+            if rep % n != w {
+                continue;
+            }
+            let len = 1 + rep % 5;
+            let ks: Vec<(B, B)> = (0..len).map(|_| (rand_below(&mut rng, &f.p), rand_below(&mut rng, &f.p))).collect();
+            // which slots get an identity: 0 = none, 1 = G1 side, 2 = G2 side, 3 = both
+            let plan: Vec<u8> = (0..len).map(|i| if (rep / 5 + i) % 3 == 0 { ((rep / 15 + i) % 4) as u8 } else { 0 }).collect();
+            rec.form("multi_pairing lists with identities");
+            rec.eval(&("multi-list", ks.iter().map(|x| x.0.to_bytes_le()).collect::<Vec<_>>(), plan.clone()), false);
+            let res = guarded(|| {
+                let mut g1o = Vec::new(); let mut g2o = Vec::new(); let mut g1r = Vec::new(); let mut g2r = Vec::new();
+                for (i, (a, bb)) in ks.iter().enumerate() {
+                    let (ao, bo, ar, br) = (our_scalar(a), our_scalar(bb), ref_scalar(a), ref_scalar(bb));
+                    let id1 = plan[i] & 1 == 1;
+                    let id2 = plan[i] & 2 == 2;
+                    g1o.push(if id1 { <Ours as Pairing>::G1Affine::zero() } else { (<Ours as Pairing>::G1::generator() * ao).into_affine() });
+                    g1r.push(if id1 { <Refe as Pairing>::G1Affine::zero() } else { (<Refe as Pairing>::G1::generator() * ar).into_affine() });
+                    g2o.push(if id2 { <Ours as Pairing>::G2Affine::zero() } else { (<Ours as Pairing>::G2::generator() * bo).into_affine() });
+                    g2r.push(if id2 { <Refe as Pairing>::G2Affine::zero() } else { (<Refe as Pairing>::G2::generator() * br).into_affine() });
+                }
+                let mo = Ours::multi_pairing(g1o.clone(), g2o.clone());
+                let mr = Refe::multi_pairing(g1r.clone(), g2r.clone());
+                let mlo = Ours::multi_miller_loop(g1o.clone(), g2o.clone());
+                let mlr = Refe::multi_miller_loop(g1r, g2r);
+                let mut prod = Ours::pairing(g1o[0], g2o[0]);
+                for i in 1..g1o.len() {
+                    prod = prod + Ours::pairing(g1o[i], g2o[i]);
+                }
+                (ser(&mo, Compress::Yes), ser(&mr, Compress::Yes), ser(&mlo.0, Compress::No), ser(&mlr.0, Compress::No), prod == mo)
+            });
+            let d = json!({"len": len, "identity_plan": plan});
+            match res {
+                Err(pn) => rec.violation(format!("{P}:multi_pairing lists:panic"), pn, d),
+                Ok((mo, mr, mlo, mlr, prod_ok)) => {
+                    cmp_bytes(rec, "multi_pairing lists with identities", &mo, &mr, d.clone());
+                    cmp_bytes(rec, "multi_miller_loop lists with identities", &mlo, &mlr, d.clone());
+                    if !prod_ok {
+                        rec.violation(format!("{P}:multi_pairing lists:product"), "multi_pairing differs from the product of the individual pairings", d);
+                    }
+                }
+            }
+        }
+    });
     // pairings
     par(rec, |w, n, rec| {
         let mut rng = rng_for(ctx.seed, P, w, 2);
